@@ -112,9 +112,10 @@ def show_allowed_pos(allowed):
              'the lookup error' if p == SELF else p) for p in allowed]
 
 
-def classify(a_c, v_c, fn):
+def classify(a_c, v_c, fn, got=None):
     """A hint for the reader of a violation (never changes the verdict)."""
-    if len(a_c) == 1 and fn.startswith('formula'):
+    if len(a_c) == 1 and fn.startswith('formula') and \
+            isinstance(got, BaseException) and 'len()' in str(got):
         return 'one-cell range'
     if isinstance(v_c, str) and ('*' in v_c or '?' in v_c) and any(
             ch in x for ch in PUNCT for x in [v_c] + a_c if isinstance(x, str)):
@@ -368,7 +369,7 @@ def formula_vector(vec, look, conc, rnd, out):
 
                 def describe(got, allowed=allowed, v_c=v_c, t=t, orient=orient):
                     return (f'MATCH type {t} ({orient}, formula) '
-                            f'[{classify(a_c, v_c, "formula")}]: got '
+                            f'[{classify(a_c, v_c, "formula", got)}]: got '
                             f'{_short(got)}, allowed {show_allowed_pos(allowed)}',
                             dict(fn='formula-match', v=v_c, a=a_c, t=t,
                                  allowed=allowed))
